@@ -1,12 +1,12 @@
-\* "the model decides" (thorough): 3 keys, two values, two readers, one iterator
+\* "the model decides" (thorough): 3 keys, one (empty) value, two readers, one iterator
 SPECIFICATION Spec
 CONSTANTS
   Bytes = {0, 97, 255}
   Keys <- KeysTiny
-  Probes <- ProbesTiny
-  PrefixSet <- PrefixTiny
-  RangeSet <- RangeTiny
-  Vals <- ValsTiny
+  Probes <- ProbesTiny2
+  PrefixSet <- PrefixTiny2
+  RangeSet <- RangeTiny2
+  Vals <- ValsEmpty
   MergeKeys <- NoKeys
   Operands <- OperandsNone
   MaxCount = 1
